@@ -171,8 +171,31 @@ class C11(Prop):
                 cfgs.append((0, False, "none", "", str(nr - 1)))
                 cfgs.append((1, True, "none", "fwd", str(nr // 2)))
                 cfgs.append((2, False, "none", "", "grow"))
-            for s, mp, rn, order, hist in cfgs:
-                obs["configs"].append(run_child(d, s, mp, rn, order, files, hist))
+            # call history across objects: ANOTHER trace set (same events; communication and computation kernel names exchanged, operator
+            # names changed, so equal ids mean different strings) is loaded and analysed first in the same interpreter; the outputs for the
+            # set under test must not depend on it (an id of one symbol table says nothing about another table)
+            import copy, shutil, tempfile
+            decoy = tempfile.mkdtemp(prefix="c11decoy-", dir=os.path.dirname(d.rstrip("/")) or None)
+            try:
+                comm, comp = sorted(gen.K_COMM), sorted(gen.K_COMP)
+                swap = {n: comp[k % len(comp)] for k, n in enumerate(comm)}
+                swap.update({n: comm[k % len(comm)] for k, n in enumerate(comp)})
+                drts = copy.deepcopy(rts)
+                for rt in drts:
+                    for e in rt.events:
+                        if e.get("cat") == "cpu_op":
+                            e["name"] = str(e["name"]) + "_decoy"
+                        elif e.get("name") in swap:
+                            e["name"] = swap[e["name"]]
+                gen.write_trace_set(drts, decoy)
+                os.environ["VF_C11_DECOY"] = decoy
+                for s in case["seeds"][:2]:
+                    cfgs.append((s, False, "none", "", "decoy"))
+                for s, mp, rn, order, hist in cfgs:
+                    obs["configs"].append(run_child(d, s, mp, rn, order, files, hist))
+            finally:
+                os.environ.pop("VF_C11_DECOY", None)
+                shutil.rmtree(decoy, ignore_errors=True)
         return obs
 
     def nontrivial(self, case, obs):
